@@ -38,7 +38,7 @@ def build():
          requires=[E('empty', 'forall|i: Index| !inner.has(i)'), E('inner_wf', 'inner.us_wf()')],
          ensures=[E('wf', 'r.wf()'), E('empty', 'r@ == Map::<Index, T>::empty()'), E('inner', 'r.inner == inner')])
     # C19 (reduced): at every call that can run a component destructor the bookkeeping already treats the value as gone
-    BIT = lambda call: [('before', call, 'proof { assert(/*@L:hint.bit_cleared*/ !self.mask@.contains(id) /*@E*/); }')]
+    BIT = lambda call: [('before', call, 'proof { assert(/*@L:hint.bit_cleared*/ !self.mask@.contains(id) /*@E*/); }', 'soft')]
     BIT_OB = [E('bit_cleared', 'the mask bit is cleared before the raw remove / drop of the value', 'C19')]
     u.fn(S, [MIMPL, 'fn remove'], ret='r', props='C04 C12', hints=BIT('self.inner.remove(id)'), hint_obligations=BIT_OB,
          requires=[E('wf', 'old(self).wf()')],
@@ -57,7 +57,7 @@ def build():
          ensures=[E('mask', '*r.0 == old(self).mask'), E('inner', '*r.1 == old(self).inner'),
                   E('final', 'final(self).mask == old(self).mask && final(self).inner == *final(r.1)')])
     u.fn(S, [MIMPL, 'fn clear'], props='C04',
-         hints=[('before', 'unsafe { self.inner.clean(', 'proof { assert(/*@L:hint.mask_taken*/ self.mask@ == Set::<u32>::empty() /*@E*/); }')],
+         hints=[('before', 'unsafe { self.inner.clean(', 'proof { assert(/*@L:hint.mask_taken*/ self.mask@ == Set::<u32>::empty() /*@E*/); }', 'soft')],
          hint_obligations=[E('mask_taken', 'when clean() runs the destructors the storage mask has already been swapped for the empty one', 'C19')],
          requires=[E('wf', 'old(self).wf()')],
          ensures=[E('wf', 'final(self).wf()'), E('map', 'final(self)@ == Map::<Index, T>::empty()'),
